@@ -5,6 +5,7 @@ import EaselModel.Stats.FitCG
 import EaselModel.Stats.Rootfinder
 import EaselModel.Stats.MinTrace
 import EaselModel.Stats.HistExpect
+import EaselModel.Stats.FitGev
 /-! Line-protocol driver for the C11 model (histogram + maximum-likelihood fits) over `Float`. -/
 open EaselModel EaselModel.Proto EaselModel.Stats
 
@@ -309,7 +310,11 @@ def step (s : S) (line : String) : S × String :=
         | some r => fitOut r
         | none => match runFitCG kind xs a with
           | some r => fitOut r
-          | none => if kind == "gamma" then fitOut (gamFitComplete xs a) else "unmodelled")
+          | none =>
+            if kind == "gamma" then fitOut (gamFitComplete xs a)
+            else if kind == "gev" then fitOut (gevFitComplete xs)
+            else if kind == "gevcens" then fitOut (gevFitCensored xs z a)
+            else "unmodelled")
   | op :: _ =>
     if op.startsWith "h" then
       match s.h with
